@@ -120,9 +120,10 @@ fn c04_ustruct_layout() {
     // a@0, b@2, c@4 (FlatVec<u8,u16>: MIN_SIZE 2)
     assert!(<UStruct as FlatBase>::MIN_SIZE == 6);
     assert!(<UPad as FlatBase>::ALIGN == 8);
-    assert!(<UPad as FlatBase>::MIN_SIZE == 10);
+    // a@0 (u64), v@8 (MIN_SIZE 2): end 10, rounded up to the struct's alignment
+    assert!(<UPad as FlatBase>::MIN_SIZE == 16);
     let len: usize = kani::any();
-    kani::assume(len >= 6 && len <= 64);
+    kani::assume(len >= <UStruct as FlatBase>::MIN_SIZE && len <= 64);
     let buf = [0u64; 8];
     let p = core::ptr::slice_from_raw_parts_mut(buf.as_ptr() as *mut u8, len);
     let q = unsafe { UStruct::ptr_from_bytes(p) };
@@ -137,7 +138,7 @@ fn c04_ustruct_layout() {
 #[kani::unwind(2)]
 fn c04_upad_layout() {
     let len: usize = kani::any();
-    kani::assume(len >= 10 && len <= 64);
+    kani::assume(len >= <UPad as FlatBase>::MIN_SIZE && len <= 64);
     let buf = [0u64; 8];
     let p = core::ptr::slice_from_raw_parts_mut(buf.as_ptr() as *mut u8, len);
     let q = unsafe { UPad::ptr_from_bytes(p) };
